@@ -31,7 +31,7 @@ def main():
     sh('git -C /repo worktree add --detach %s HEAD' % scr)
     meta = {'property': a.prop, 'tag': a.tag, 'needs_to_manifest': a.needs, 'repo_head': sh('git -C /repo rev-parse HEAD').stdout.strip(),
             'ran': []}
-    env = dict(os.environ, PYTHONPATH=scr, PYTHONDONTWRITEBYTECODE='1')
+    env = dict(os.environ, PYTHONPATH=scr, PYTHONDONTWRITEBYTECODE='1', OMP_NUM_THREADS='2', MKL_NUM_THREADS='2')
     try:
         r = sh('cd %s && /venv/bin/python -W ignore %s' % (scr, os.path.abspath(a.demo)), timeout=1200, env=env)
         meta['demo_on_clean_tree'] = {'exit': r.returncode, 'tail': (r.stdout + r.stderr)[-300:]}
